@@ -46,25 +46,25 @@ package ext
 //@   modifies r.pos, r.avail
 
 //@ func tryReadTrailer(t, r, n) err
-//@   props C03
+//@   props C03, C01, C02, C11, C14
 //@   requires r != nil && t != nil
 //@   modifies t._all, alltype(protocol.argsKV), r.pos, r.avail, r.failed, mem, parseArr, hdrComplete, heNeedMore
 //@   allocates
 
 //@ func ReadTrailer(t, r) err
-//@   props C03
+//@   props C03, C01, C02, C11, C14
 //@   requires r != nil && t != nil
 //@   modifies t._all, alltype(protocol.argsKV), r.pos, r.avail, r.failed, mem, parseArr, hdrComplete, heNeedMore
 //@   allocates
 
 //@ func trySkipTrailer(r, n) err
-//@   props C03
+//@   props C03, C14, C02
 //@   requires r != nil
 //@   modifies r.pos, r.avail, r.failed, mem, heNeedMore
 //@   allocates
 
 //@ func SkipTrailer(r) err
-//@   props C03
+//@   props C03, C14, C02
 //@   requires r != nil
 //@   modifies r.pos, r.avail, r.failed, mem, heNeedMore
 //@   allocates
@@ -111,7 +111,7 @@ package ext
 
 // appendBodyFixedSize: on success exactly n bytes are taken off the wire and appended to dst.
 //@ func appendBodyFixedSize(r, dst, n) res, err
-//@   props C01, C03, C11
+//@   props C01, C03, C11, C02
 //@   requires r != nil && 0 <= n && len(dst) + n <= 140737488355328
 //@   modifies r.pos, r.avail, r.failed, mem
 //@   allocates
@@ -121,7 +121,7 @@ package ext
 
 // readBodyChunked: the decoded body never exceeds a positive limit.
 //@ func readBodyChunked(r, maxBodySize, dst) res, err
-//@   props C01, C03, C11
+//@   props C01, C03, C11, C02
 //@   panics
 //@   requires r != nil && 0 < maxBodySize && maxBodySize <= 70368744177664
 //@   modifies r.pos, r.avail, r.failed, mem
@@ -175,7 +175,7 @@ package ext
 // normalizeHeaderValue compacts a folded value in place; everything after the value must stay
 // byte-identical and in place, otherwise what follows the header block (body, pipelined request) moves.
 //@ func normalizeHeaderValue(ov, ob, headerLength) nv, nb, nhl
-//@   props C02, C01
+//@   props C02, C01, C11
 //@   replay-go buf := []byte("X-Folded: one;\r\n two \r\nB: c\r\n\r\nBODY"); var s HeaderScanner; s.B = buf; got := ""; for s.Next() { got += string(s.Key) + "=" + string(s.Value) + "|" }; if s.Err != nil || got != "X-Folded=one; two|B=c|" || string(s.B) != "BODY" { fmt.Printf("VCGO-VIOLATED a folded header whose last line has trailing blanks is scanned as %q (err %v), rest %q; want X-Folded=one; two|B=c| and rest BODY\n", got, s.Err, s.B) }
 //@   nosafety
 //@   replay-go buf := []byte("A: b\r\n c\r\n\r\nBODYBODY"); var s HeaderScanner; s.B = buf; for s.Next() {}; if string(buf[len(buf)-8:]) != "BODYBODY" { fmt.Printf("VCGO-VIOLATED scanning a folded header moved the bytes after the header block: buffer is now %q, HLen=%d for a 12-byte block\n", buf, s.HLen) }
@@ -200,7 +200,7 @@ package ext
 //@ macro hsInv(s) = 0 <= s.HLen && s.HLen + len(s.B) <= 281474976710656 && hsRep(s)
 //@ macro hsCached(s) = s.initialized && s.nextColon >= 0
 //@ func HeaderScanner.Next(s) r
-//@   props C02, C03, C01
+//@   props C02, C03, C01, C11
 //@   requires hsInv(s)
 //@   modifies s._all, mem
 //@   ensures r ==> hsInv(s)
@@ -245,7 +245,7 @@ package ext
 //@     invariant within(b, old(b))
 
 //@ func skipTrailer(buf) n, err
-//@   props C03
+//@   props C03, C14
 //@   ensures err == nil ==> 0 <= n && n <= len(buf)
 //@   loop 0:
 //@     invariant 0 <= skip && skip + len(buf) == len(old(buf))
@@ -263,7 +263,7 @@ package ext
 //@ ghost var hdrComplete bool
 //@ ghost var hcAt int scratch
 //@ func HeadersComplete(buf) r
-//@   props C02, C03
+//@   props C02, C03, C01, C11
 //@   modifies hcAt
 //@   ghostset before IndexByte: hcAt = off(buf) - off(old(buf))
 //@   top-ensures r ==> 0 <= hcAt && hcAt < len(old(buf)) && (hcAt == 0 || old(buf)[hcAt - 1] == '\n') && (old(buf)[hcAt] == '\n' || (hcAt + 1 < len(old(buf)) && old(buf)[hcAt] == '\r' && old(buf)[hcAt + 1] == '\n'))
@@ -272,7 +272,7 @@ package ext
 //@     invariant off(buf) == off(old(buf)) || old(buf)[off(buf) - off(old(buf)) - 1] == '\n'
 
 //@ func parseTrailer(t, buf) n, err
-//@   props C03, C02
+//@   props C03, C02, C01, C11, C14
 //@   ghostset-at-entry hdrComplete = false
 //@   ghostset after HeadersComplete#0: hdrComplete = result
 //@   assert @C02 before Next: hdrComplete
@@ -349,7 +349,7 @@ package ext
 // trailing-CRLF shortcut to EOF applies only after a failed peek.
 //@ ghost var heNeedMore bool
 //@ func HeaderError(typ, err, errParse, b) r
-//@   props C02
+//@   props C02, C01, C11
 //@   modifies heNeedMore
 //@   allocates
 //@   ghostset-at-entry heNeedMore = false
